@@ -1,5 +1,6 @@
 CONSTANTS
   MaxItems = 2
+  WithPath = TRUE
 SPECIFICATION Spec
 INVARIANTS NeverArbitrary Emit
 CHECK_DEADLOCK FALSE
